@@ -181,3 +181,63 @@ M("p5-decoder-swapped", "C02", "fire P5", "src/circuit.rs",
 M("p5-mux-wrong-field", "C02", "fire P5", "src/circuit.rs",
   """        for (i, (&if_true, &if_false)) in t.end_line.iter().zip(f.end_line.iter()).enumerate() {""",
   """        for (i, (&if_true, &if_false)) in t.end_line.iter().zip(f.start_line.iter()).enumerate() {""", "end_line of a merge takes the else side from start_line")
+
+# ---------------------------------------------------------------- C14
+REVERT("revert-shortcircuit-env", "C14", "fire E4", "cc9123e", "pre-fix tree: rhs of && / || lowered on the caller's environment")
+M("e2-block-no-pop", "C14", "fire E2", "src/compile.rs",
+  """        expr = stmt.compile(prg, env, circuit);
+    }
+    env.pop();""",
+  """        expr = stmt.compile(prg, env, circuit);
+    }""", "block scope never popped: shadowing bindings outlive their block")
+M("e2-fncall-no-pop", "C14", "fire E2", "src/compile.rs",
+  """                let body = compile_block(&fn_def.body, prg, env, circuit);
+                env.pop();
+                body""",
+  """                let body = compile_block(&fn_def.body, prg, env, circuit);
+                body""", "callee parameter scope stays on the caller's environment")
+M("e3-varassign-let", "C14", "fire E3", "src/compile.rs",
+  """                env.assign_mut(identifier.clone(), value);""",
+  """                env.let_in_current_scope(identifier.clone(), value);""", "assignment inside a block creates a new binding that dies with the block")
+M("e4-if-then-on-shared-env", "C14", "fire E4", "src/compile.rs",
+  """                let case_true = case_true.compile(prg, &mut env_if_true, circuit);""",
+  """                let case_true = case_true.compile(prg, env, circuit);""", "then-branch assignments applied to the caller's environment unconditionally")
+M("e4-match-no-install", "C14", "fire E4", "src/compile.rs",
+  """                *env = muxed_env;
+                circuit.replace_panic_with(muxed_panic);""",
+  """                drop(muxed_env);
+                circuit.replace_panic_with(muxed_panic);""", "assignments made in match arms are lost")
+M("e4-join-unconditional", "C14", "fire E4", "src/compile.rs",
+  """                            *env = circuit.mux_envs(join_eq, env_if_join, env.clone());""",
+  """                            *env = env_if_join;""", "for-join body effects applied for non-joined pairs")
+M("e1-if-const-condition", "C14", "fire E1", "src/compile.rs",
+  """                *env = circuit.mux_envs(condition, env_if_true, env_if_false);
+
+                let muxed_panic""",
+  """                *env = circuit.mux_envs(1, env_if_true, env_if_false);
+
+                let muxed_panic""", "environment merged under a different wire than the panic record")
+M("e5-reach-into-env", "C14", "fire E5", "src/compile.rs",
+  """                let binding = binding.compile(prg, env, circuit);
+                env.let_in_current_scope(identifier.clone(), binding);
+                vec![]""",
+  """                let binding = binding.compile(prg, env, circuit);
+                env.0.first_mut().unwrap().insert(identifier.clone(), binding);
+                vec![]""", "let mut writes into the outermost scope through Env's storage")
+M("e6-foreach-clone-per-iteration", "C14", "fire E6", "src/compile.rs",
+  """                    for stmt in body {
+                        stmt.compile(prg, env, circuit);
+                    }
+                    i += elem_in_bits;""",
+  """                    let mut env_iter = env.clone();
+                    for stmt in body {
+                        stmt.compile(prg, &mut env_iter, circuit);
+                    }
+                    i += elem_in_bits;""", "loop body assignments are invisible to later iterations")
+M("e4-if-clone-order", "C14", "quiet", "src/compile.rs",
+  """                let mut env_if_true = env.clone();
+                let mut env_if_false = env.clone();
+""",
+  """                let mut env_if_false = env.clone();
+                let mut env_if_true = env.clone();
+""", "behaviour-preserving: clones taken in the other order")
